@@ -1,5 +1,5 @@
 SPECIFICATION Spec
-CONSTANTS L = 2  Variant = "reverse_ties"
+CONSTANTS L = 2  Variant = "reverse_ties"  NObj = 4  Family = "small"
 INVARIANT TypeOK
 INVARIANT PainterRule
 INVARIANT PrefixRule
